@@ -10,6 +10,7 @@ being guessed."""
 import re, sys, os
 sys.path.insert(0, os.path.dirname(os.path.abspath(__file__)))
 import gen_constants as gc
+import gen_guard as gg
 
 class Unsupported(Exception):
     pass
@@ -130,36 +131,6 @@ class Parser:
             return ("struct", path, fields)
         return ("path", path)
 
-def use_imports(text):
-    """name -> list of full paths for every item the `use` declarations of a (test-free, comment-free) file bring into scope; `a as b` is
-    listed under b with the path of a; a glob import is listed under '*'"""
-    out = {}
-    msk = gc.mask_literals(text)
-    for m in re.finditer(r"\b(?:pub(?:\([^)]*\))?\s+)?use\s+([^;]+);", msk):
-        def expand(prefix, tree):
-            tree = tree.strip()
-            depth, cur, parts = 0, "", []
-            for ch in tree:
-                if ch == "{": depth += 1
-                elif ch == "}": depth -= 1
-                if ch == "," and depth == 0: parts.append(cur); cur = ""
-                else: cur += ch
-            if cur.strip(): parts.append(cur)
-            for part in parts:
-                part = part.strip()
-                bm = re.fullmatch(r"((?:[\w]+\s*::\s*)*)\{(.*)\}", part, re.S)
-                if bm:
-                    expand(prefix + re.sub(r"\s+", "", bm.group(1)), bm.group(2)); continue
-                am = re.fullmatch(r"((?:\w+\s*::\s*)*)(\w+|\*)(?:\s+as\s+(\w+))?", part)
-                if not am:
-                    out.setdefault("?", []).append(prefix + part); continue
-                path = prefix + re.sub(r"\s+", "", am.group(1)) + am.group(2)
-                name = am.group(3) or am.group(2)
-                if name == "self": name = (prefix.rstrip(":").split("::") or ["self"])[-1]; path = prefix.rstrip(":")
-                out.setdefault(name, []).append(path)
-        expand("", m.group(1))
-    return out
-
 # where an unqualified callee name, or the module a qualified one is reached through, has to come from
 EXPECTED_IMPORTS = {
     "srp_internal": {"crate::srp_internal"}, "srp_internal_client": {"crate::srp_internal_client"},
@@ -172,17 +143,16 @@ EXPECTED_IMPORTS = {
 }
 
 def check_provenance(text, rel, names):
-    """every name in `names` (callees written without a path, and the modules qualified callees go through) is either a function defined
-    exactly once in this file or imported exactly once, from where EXPECTED_IMPORTS says; no glob import could supply it"""
-    imp = use_imports(text)
-    msk = gc.mask_literals(text)
-    globs = [p for p in imp.get("*", []) if not p.startswith(("core::", "std::"))]
+    """every name in `names` (callees written without a path, and the modules qualified callees go through) is imported exactly once, from
+    where EXPECTED_IMPORTS says, and is not an item of this file; no glob import or include! could supply it"""
     for n in sorted(names):
-        local = len(re.findall(r"\bfn\s+" + re.escape(n) + r"\b", msk)) + len(re.findall(r"\bmod\s+" + re.escape(n) + r"\b", msk))
-        paths = imp.get(n, [])
-        if local == 1 and not paths: continue
-        if local == 0 and len(paths) == 1 and paths[0] in EXPECTED_IMPORTS.get(n, set()) and not globs: continue
-        raise Unsupported("%s: the name %s is defined %d times here and imported from %s (glob imports: %s)" % (rel, n, local, paths, globs))
+        home = next(iter(EXPECTED_IMPORTS.get(n, {""}))).rsplit("::", 1)[0].replace("crate::", "src/").replace("::", "/") + ".rs"
+        if rel == home:
+            # the callee's own file: defined there exactly once, and not imported on top of that
+            imp = gg.no_foreign_globs(text, rel)
+            if gg.items_named(text, n) != 1 or imp.get(n): raise Unsupported("%s: %s is defined %d times here and imported from %s" % (rel, n, gg.items_named(text, n), imp.get(n)))
+            continue
+        gg.imported_only(text, rel, n, EXPECTED_IMPORTS.get(n, set()))
 
 class Fn:
     def __init__(self, repo, rel, name):
@@ -193,6 +163,7 @@ class Fn:
         m = re.search(r"\bfn\s+" + name + r"\s*\(", msk)
         inner, end = gc.split_args(text, m.end() - 1)
         self.params, self.has_self = [], False
+        self.sig = re.sub(r"\s+", " ", re.sub(r"\s*([^\w\s])\s*", r"\1", inner + " " + text[end + 1:text.index("{", end)])).strip()
         depth, cur, parts = 0, "", []
         for ch in inner:
             if ch in "([<": depth += 1
@@ -328,19 +299,30 @@ class Fn:
             if p.peek() is not None: raise Unsupported("text after the tail expression: " + str(p.peek()))
             return self.ret(e)
 
+SIGS = {}
+
 def translate_one(repo, rel, fn):
     try:
         f = Fn(repo, rel, fn)
         tail = f.translate()
         check_provenance(f.text, rel, f.free_names)
+        # the prelude's constructors and key.rs's identity accessors are the ones the translator reads them as; no trait of this file lends
+        # a method to a foreign type; nothing but doc / allow / must_use attributes, `pub` and `const` in front of the function
+        gg.never_bound(f.text, rel, ["Ok", "Err", "Some", "None", "as_le_bytes", "from_le_bytes", "randomized", "randomize_data", "from"])
+        for tr in re.findall(r"\btrait\s+(\w+)", gc.mask_literals(f.text)): raise Unsupported("%s defines a trait (%s)" % (rel, tr))
+        gg.fn_header(f.text, rel, fn)
+        SIGS[fn + "@" + rel] = f.sig
         return "⟨%s, [%s], [%s], %s, none⟩" % (lean_str(f.self_type), ", ".join(lean_str(x) for x in f.params), ", ".join(f.stmts), tail)
-    except (Unsupported, gc.Missing) as ex:
+    except (Unsupported, gg.Unsupported, gc.Missing) as ex:
         return '⟨"", [], [], Ret.val (Rhs.atom Atom.self_), some %s⟩' % lean_str(str(ex))
     except Exception as ex:
         return '⟨"", [], [], Ret.val (Rhs.atom Atom.self_), some %s⟩' % lean_str("translator error %s: %s" % (type(ex).__name__, ex))
 
 def main(repo, outp):
     defs = ["/-- `%s` in %s -/\ndef %s : ApiFn := %s" % (fn, rel, lname, translate_one(repo, rel, fn)) for lname, rel, fn in TARGETS]
+    # the parameter list and return type of each function, white space normalised (the terms carry parameter NAMES; their types — which
+    # decide what a conversion such as `Generator::from(generator)` or `?` means — are pinned as text)
+    defs += ["/-- parameters and return type of `%s` in %s -/\ndef %sSig : String := %s" % (fn, rel, lname, lean_str(SIGS.get(fn + "@" + rel, "<not translated>"))) for lname, rel, fn in TARGETS]
     text = ("/- GENERATED by tools/gen_api.py from the Rust sources on every run. Do not edit. -/\nimport WowSrp.Model.MiniApi\n"
             "namespace WowSrp.Gen.CodeApi\nopen WowSrp.MiniApi\n\n" + "\n\n".join(defs) + "\n\nend WowSrp.Gen.CodeApi\n")
     old = open(outp).read() if os.path.exists(outp) else None
